@@ -41,8 +41,11 @@ Definition case_yload (o : list (str * lres)) (s : str) : lres :=
        end.
 
 (* every plain scalar in the oracle must be reproduced by the scalar model *)
+(* a constructor ValueError reported as a loader error (fixes/C02-any-str-valueerror.patch) is the same text-level fact *)
+Definition lres_agree (m o : lres) : bool :=
+  lres_eqb m o || match m, o with LValErr, LYamlErr => true | _, _ => false end.
 Definition oracle_consistent (o : list (str * lres)) : bool :=
-  forallb (fun sr => if plain_ok (fst sr) then lres_eqb (model_yload (fst sr)) (snd sr) else true) o.
+  forallb (fun sr => if plain_ok (fst sr) then lres_agree (model_yload (fst sr)) (snd sr) else true) o.
 
 Inductive obs := Accepted (w : val) | Rejected | Crashed.
 
